@@ -115,9 +115,15 @@ def load_known():
 
 
 def is_known(prop, ident, witness_class, known):
+    """a finding is keyed by the obligation identity (exact), or by `obligation_prefix` = function + kind + tag
+    (robust against renamed locals in the site text), plus a witness class"""
     for f in known.get("findings", []):
-        if f["property"] == prop and f["obligation"] == ident and \
-                f.get("witness_class", "") in ("", witness_class):
+        if f["property"] != prop or f.get("witness_class", "") not in ("", witness_class):
+            continue
+        if f.get("obligation") == ident:
+            return f
+        pre = f.get("obligation_prefix")
+        if pre and ident.startswith(pre):
             return f
     return None
 
